@@ -541,7 +541,8 @@ def _run(ctx, rng, quick, hbin, scratch):
         for comp in ('none', 'gz', 'bz2'):
             if comp != 'none' and quick and (k // stride) % 3:
                 continue
-            mon_ops.append('rt %s %s %s %s' % (fmt, op, comp, op_objects(gen, boxes, objs)))
+            # hand-over mode: whole buffer / item by item / items and buffers interleaved
+            mon_ops.append('rt %s %s %s:%d %s' % (fmt, op, comp, (k // stride + len(comp)) % 3, op_objects(gen, boxes, objs)))
             mon_expect.append(expected(fmt, op, gen, boxes, objs))
     rc, mon, se = ctx.run_lines([hbin, scratch], '\n'.join(mon_ops) + '\n')
     if rc != 0 or len(mon) != len(mon_ops):
@@ -552,6 +553,7 @@ def _run(ctx, rng, quick, hbin, scratch):
         ctx.note_case(o)
         w = o.split()
         ctx.count('rt:%s:%s' % (w[1], w[3]))
+        ctx.count('rt-handover-mode:%s' % w[3].split(':')[-1])
         if r != exp:
             i, x, y = first_diff(r, exp)
             key = 'text-roundtrip:%s:%s' % (w[1], ('error:' + r[4:40]) if r.startswith('err') else field_key(x, y))
